@@ -86,3 +86,42 @@ package interpreter
 //@   ensures[C18] result == ite(num(v) < num(o), -1, ite(num(v) > num(o), 1, 0))
 //@ schema cmp_env(T=IntValue, P=C18)
 //@ schema cmp_env(T=UIntValue, P=C18)
+
+// ---- bitwise operators and shifts of the native-width integer types (C14)
+//@ schema bitop_native(T=Int8Value, bits=8, signed=true)
+//@ schema bitop_native(T=Int16Value, bits=16, signed=true)
+//@ schema bitop_native(T=Int32Value, bits=32, signed=true)
+//@ schema bitop_native(T=Int64Value, bits=64, signed=true)
+//@ schema bitop_native(T=UInt8Value, bits=8, signed=false)
+//@ schema bitop_native(T=UInt16Value, bits=16, signed=false)
+//@ schema bitop_native(T=UInt32Value, bits=32, signed=false)
+//@ schema bitop_native(T=UInt64Value, bits=64, signed=false)
+//@ schema bitop_native(T=Word8Value, bits=8, signed=false)
+//@ schema bitop_native(T=Word16Value, bits=16, signed=false)
+//@ schema bitop_native(T=Word32Value, bits=32, signed=false)
+//@ schema bitop_native(T=Word64Value, bits=64, signed=false)
+
+// ---- bitwise operators and shifts of the 128/256-bit integer types (C14)
+//@ func truncate
+//@   assumed
+//@   requires x != nil && big(x) >= 0 && maxWords >= 0 && maxWords <= 8
+//@   modifies big(x)
+//@   ensures big(x) == emod(old(big(x)), pow2n(64 * maxWords, 520)) && result == x
+//@ func toTwosComplement
+//@   inline
+//@ func fromTwosComplement
+//@   inline
+//@ func NewUInt128ValueFromUint64
+//@   inline
+//@ func NewUInt256ValueFromUint64
+//@   inline
+//@ func NewWord128ValueFromUint64
+//@   inline
+//@ func NewWord256ValueFromUint64
+//@   inline
+//@ schema bitop_big(T=Int128Value, N=Int128, bits=128, signed=true, min=-pow2(127), max=pow2(127)-1)
+//@ schema bitop_big(T=Int256Value, N=Int256, bits=256, signed=true, min=-pow2(255), max=pow2(255)-1)
+//@ schema bitop_big(T=UInt128Value, N=UInt128, bits=128, signed=false, min=0, max=pow2(128)-1)
+//@ schema bitop_big(T=UInt256Value, N=UInt256, bits=256, signed=false, min=0, max=pow2(256)-1)
+//@ schema bitop_big(T=Word128Value, N=Word128, bits=128, signed=false, min=0, max=pow2(128)-1)
+//@ schema bitop_big(T=Word256Value, N=Word256, bits=256, signed=false, min=0, max=pow2(256)-1)
